@@ -34,7 +34,7 @@ TARGETS = {
                      "Bip32Path.m", "Bip32Path.repr_hardened", "Bip32Path.__repr__", "Bip32Path.parse"],
     "script": ["Script.raw_serialize", "Script.serialize", "Script.__init__", "p2wsh_script", "p2wpkh_script", "p2sh_script", "p2pkh_script"],
     "bip39": ["correct_entropy_bits_value", "checksum_length", "mnemonic_sentence_length", "mnemonic_from_entropy"],
-    "bip85": ["BIP85DeterministicEntropy.byte_count_from_word_count"],
+    "bip85": ["BIP85DeterministicEntropy.byte_count_from_word_count", "BIP85DeterministicEntropy.hex", "BIP85DeterministicEntropy.bip39_mnemonic"],
     "ripemd": ["fi", "rol", "compress", "ripemd160"],
     "keys": ["PrivateKey.__bytes__", "PrivateKey.wif"],
     "__main__": ["value_in_interval", "address_index", "account_index", "extended_key", "mnemonic", "bip39_seed", "entropy_hex"],
@@ -44,7 +44,11 @@ EXTERNS = {
     "helper.hash256": (["s"], "return hashlib.sha256(hashlib.sha256(s).digest()).digest()"),
     "helper.sha256": (["s"], "return hashlib.sha256(s).digest()"),
     "helper.hash160": (["s"], "return ripemd160(hashlib.sha256(s).digest())"),
+    # an instance method as an external primitive: its semantics (HMAC over the key derived along the path) is a parameter
+    "bip85.BIP85DeterministicEntropy.entropy": (["self", "path"],
+        "path = Bip32Path.parse(path)\nnode = self.master_node.derive_path(index_list=path.to_list())\nreturn self._hmac_sha512(msg=bytes(node.private_key))"),
 }
+EXTERN_KIND = {"bip85.BIP85DeterministicEntropy.entropy": "instance"}
 EXN = {"IndexError", "TypeError", "ValueError", "OverflowError", "ZeroDivisionError", "RuntimeError", "KeyError", "ArgumentError", "AssertionError"}
 BINOPS = {ast.Add: "Add", ast.Sub: "Sub", ast.Mult: "Mul", ast.FloorDiv: "FloorDiv", ast.Mod: "Mod",
           ast.LShift: "LShift", ast.RShift: "RShift", ast.BitAnd: "BitAnd", ast.BitOr: "BitOr",
@@ -479,6 +483,11 @@ class FunTrans:
                 g = e.args[0]
                 lc = ast.ListComp(elt=g.elt, generators=g.generators)      # join materialises its argument
                 return "(EMeth MJoin %s (ECons %s ENil))" % (self.expr(f.value, scope), self.comp(lc, scope))
+            if f.attr == "format" and isinstance(f.value, ast.Constant) and isinstance(f.value.value, str):
+                # only the plain "{}" field (str() of int / str arguments)
+                if "{" in f.value.value.replace("{}", "") or "}" in f.value.value.replace("{}", "") or any(isinstance(a, ast.Starred) for a in e.args):
+                    raise Untranslatable("format template with fields other than {}")
+                return "(EMeth MFormat %s %s)" % (self.expr(f.value, scope), self.exprs(e.args, scope))
             if f.attr == "encode" and len(e.args) == 1 and isinstance(e.args[0], ast.Constant) and e.args[0].value == "ascii":
                 return "(EMeth MEncodeAscii %s ENil)" % self.expr(f.value, scope)
             if f.attr in METHODS:
@@ -637,7 +646,7 @@ class World:
 
     def kind(self, qual):
         if qual in EXTERNS:
-            return None
+            return EXTERN_KIND.get(qual)
         m, f = qual.split(".", 1)
         return self.mod(m).method_kind.get(f)
 
